@@ -1338,6 +1338,12 @@ func (ex *Exec) callExtern(xd *ExternDir, fn *types.Func, sig *types.Signature, 
 	}
 	var args []Value
 	for i, a := range rest {
+		if lit, ok := ast.Unparen(a).(*ast.FuncLit); ok {
+			// a function literal handed to the summarised function may be called any number of times: everything it writes
+			// becomes arbitrary
+			w := ex.scanWrites(lit.Body, ex.info())
+			ex.havocWrites(w, st, false)
+		}
 		args = append(args, ex.convertTo(ex.eval(a, st), ssig.Params().At(i).Type(), st))
 	}
 	ex.note("external function summarised by an assumed stub contract: " + xd.Callee + " as " + fi.Short)
